@@ -193,15 +193,15 @@ Qed.
 Section ElemInd.
   Variable P : element -> Prop.
   Hypothesis Hc : forall cl, P (EComp cl).
-  Hypothesis He : forall p m, P (EExt p m).
-  Hypothesis Hi : forall i, P (EImp i).
+  Hypothesis He : forall p m a, P (EExt p m a).
+  Hypothesis Hi : forall i a, P (EImp i a).
   Hypothesis Hk : forall ct n cm secs eqs algs,
       Forall (fun s : label * list element => Forall P (snd s)) secs -> P (ECls ct n cm secs eqs algs).
   Fixpoint element_ind2 (e : element) : P e :=
     match e with
     | EComp cl => Hc cl
-    | EExt p m => He p m
-    | EImp i => Hi i
+    | EExt p m a => He p m a
+    | EImp i a => Hi i a
     | ECls ct n cm secs eqs algs =>
         Hk ct n cm secs eqs algs
            ((fix go (ss : list (label * list element)) : Forall (fun s => Forall P (snd s)) ss :=
@@ -253,6 +253,9 @@ Proof.
   intros Ht Hc Hn. exists []. rewrite app_nil_r.
   split5; [exact Ht|cbn; constructor|apply good_nil; assumption|apply incr_nil|constructor].
 Qed.
+
+Lemma bump_nil b l : step_inv l [] [] (bump b l).
+Proof. unfold bump. destruct b; [destruct (l_symset l)|]; apply step_inv_nil; cbn; auto. Qed.
 
 Lemma perm4 {A : Type} (a b c d : list A) : Permutation ((a ++ c) ++ (b ++ d)) ((a ++ b) ++ (c ++ d)).
 Proof. rewrite <- !app_assoc. apply Permutation_app_head. apply Permutation_app_swap_app. Qed.
@@ -356,12 +359,10 @@ Proof.
     apply do_clause_ok in Hc. destruct Hc as (_ & Ho & _ & _ & Hcnt & _).
     exists (map key ss). unfold syms_of. cbn [flat_map]. rewrite !app_nil_r. split5; auto.
     rewrite Ho, Hcnt. split; apply seq_sorted.
-  - intros p m v path k l r cls k' l' H. cbn [do_element] in H. inversion H; subst.
-    unfold syms_of. cbn. unfold ext_count.
-    destruct m as [[|a m]|]; [apply step_inv_nil; auto| |apply step_inv_nil; auto].
-    destruct (l_symset l); apply step_inv_nil; cbn; auto.
-  - intros i v path k l r cls k' l' H. cbn [do_element] in H.
-    destruct (add_import v i (k_imports k)); [|discriminate]. inversion H; subst. apply step_inv_nil; auto.
+  - intros p m a v path k l r cls k' l' H. cbn [do_element] in H. inversion H; subst.
+    unfold syms_of. cbn. unfold ext_count. apply bump_nil.
+  - intros i a v path k l r cls k' l' H. cbn [do_element] in H.
+    destruct (add_import v i (k_imports k)); [|discriminate]. inversion H; subst. unfold syms_of. cbn. apply bump_nil.
   - intros ct n cm secs eqs algs IH v path k l r cls k' l' H. cbn [do_element] in H. fold (sec_fun v (path ++ [n])) in H.
     destruct (mapM (sec_fun v (path ++ [n])) secs (mkK [] [] [], l)) as [[srs [k1 l1]]|] eqn:Hm; [|discriminate].
     inversion H; subst. clear H. apply (secs_inv v _ secs IH) in Hm.
@@ -431,7 +432,7 @@ Definition ideal_syms (secs : list (label * list element)) : list osym :=
                                           end) (snd sec)) secs.
 Definition ideal_exts (secs : list (label * list element)) : list oext :=
   flat_map (fun sec => flat_map (fun e => match e with
-                                          | EExt p m => [mkE p (vis_of_label (fst sec)) (conv_args m)]
+                                          | EExt p m _ => [mkE p (vis_of_label (fst sec)) (conv_args m)]
                                           | _ => []
                                           end) (snd sec)) secs.
 
